@@ -513,6 +513,55 @@ def _first_error(out):
     return out.strip().split("\n")[-1][:300]
 
 
+def stage_conc(run, cfg, cq):
+    """trace refinement (tie T): real goroutines under the controlled scheduler -> trace -> Lean replay"""
+    comp, drv = cq["comp"], cq["driver"]
+    decisive = cq.get("decisive", lambda d: d["op"].startswith("mon "))
+    ign = cq.get("ignore")
+    concbin = os.path.join(WORK, "bin", "conc")
+    trace = os.path.join(run.work, comp + ".trace")
+    stats = os.path.join(run.work, comp + ".stats.json")
+    args = [concbin, comp, "-seed", str(run.seed), "-tier", run.tier, "-out", trace, "-stats", stats] + list(cq.get("args", ()))
+    rc, out = sh(args, env=GOENV, timeout=cq.get("timeout", 3000))
+    if rc != 0:
+        raise Broken(f"harness conc {comp} failed rc={rc}: {out[-1500:]}")
+    diffs, done = run_driver(drv, trace)
+    if ign:
+        diffs = [d for d in diffs if not ign(d)]
+    st = json.load(open(stats))
+    run.cov["evaluations"] += st["cases"]
+    run.cov["distinct_nontrivial"] += st["distinct_nontrivial"]
+    run.cov["samples"] += st["samples"][:3]
+    run.cov["traces_validated_against_impl"] = run.cov.get("traces_validated_against_impl", 0) + st["cases"]
+    run.cov["correspondence"][comp] = dict(traces=st["cases"], events=st["ops"], distinct_traces=st["distinct_cases"],
+                                           distinct_nontrivial=st["distinct_nontrivial"], event_kinds=st["op_kinds"],
+                                           branches=st["branches"], driver_lines=int(done["lines"]), diffs=int(done["diffs"]))
+    if not diffs:
+        if os.environ.get("VERIF_KEEP") != "1":
+            os.remove(trace)
+        return
+    dec = [d for d in diffs if decisive(d)]
+    # a case whose trace the model rejects makes later lines of the same case meaningless: keep the first per case
+    reported, seen_cases = 0, set()
+    for d in (dec if dec else diffs):
+        if d["case"] in seen_cases or reported >= 3:
+            continue
+        seen_cases.add(d["case"])
+        hdr, cops = extract_case(trace, d["case"], d["line"])
+        sched = [o for o in cops if not (o.startswith("check ") or o.startswith("lockstate ") or o.startswith("at ") or o.startswith("ret "))]
+        is_dec = decisive(d)
+        text = f"{comp}: case({hdr}) schedule [{'; '.join(sched)}] -> `{d['op']}`: {d['detail']}"
+        if len(text) > 1200:
+            text = text[:500] + " … " + text[-650:]
+        before = len(run.violations) + len(run.known_hits)
+        run.violation(text if is_dec else "trace of the real goroutines is not a behaviour of the model: " + text,
+                      dict(kind="schedule" if is_dec else "correspondence", component=comp, driver=drv, header=hdr,
+                           events=cops, diff=d, conc=True,
+                           broken=None if is_dec else "T-correspondence " + comp), is_dec)
+        if len(run.violations) + len(run.known_hits) > before or True:
+            reported += 1
+
+
 def run_property(pid, tier):
     from . import props
     if pid not in props.PROPS:
@@ -560,6 +609,8 @@ def run_property(pid, tier):
             return run.finish(level=cfg.get("level", "proof"))
         for sq in cfg.get("seq", []):
             stage_seq(run, cfg, sq)
+        for cq in cfg.get("conc", []):
+            stage_conc(run, cfg, cq)
         for extra in cfg.get("stages", []):
             extra(run, cfg)
         if (proof_broken or extractor_broken) and not run.violations and not run.known_hits:
@@ -581,6 +632,23 @@ def do_replay(path):
     rc, out = stage_go(("seq",))
     if rc != 0:
         log(out); return 2
+    if r.get("conc"):
+        rc, out = stage_go(("conc",))
+        if rc != 0:
+            log(out); return 2
+        d = os.path.join(WORK, "replay"); os.makedirs(d, exist_ok=True)
+        sf = os.path.join(d, "schedule.txt")
+        with open(sf, "w") as f:
+            f.write(f"case r1 {r['header']}\n" + "\n".join(r["events"]) + "\n")
+        tr = os.path.join(d, "replay.trace")
+        rc, out = sh([os.path.join(WORK, "bin", "conc"), r["component"], "-replay", sf, "-out", tr, "-stats", os.path.join(d, "s.json")], env=GOENV, timeout=300)
+        if rc != 0:
+            log(out); return 2
+        log(open(tr).read())
+        diffs, _ = run_driver(r["driver"], tr)
+        for x in diffs:
+            log(f"DIFF {x['op']} :: {x['detail']}")
+        return 1 if diffs else 0
     if r.get("kind") in ("input", "correspondence") and "ops" in r:
         seqbin = os.path.join(WORK, "bin", "seq")
         diffs, txt = replay_case(seqbin, r["component"], r["driver"], r["header"], r["ops"], os.path.join(WORK, "replay"), r.get("args", ()))
